@@ -234,6 +234,9 @@ class Exec:
             if name in self.consts: return self.consts[name]
             for kk in self.consts:
                 if name.endswith('::' + kk) or kk.endswith('::' + name): return self.consts[kk]
+            mm = re.match(r'ZeroSized: \{closure@(src/[^}]+)\}$', name)
+            if mm: return {'__closure': mm.group(1)}
+            if name.startswith('ZeroSized: '): return Opaque('zst ' + name[11:])
             mm = re.match(r'"(.*)"$', name, flags=re.S)
             if mm: return {'str': mm.group(1)}
             mm = re.match(r"b?'(.)'$", name)
@@ -519,7 +522,7 @@ class Exec:
         if mm and mm.group(1) == 'const 0_u8': return {'len': bv(int(mm.group(2))), 'kind': 'zeros'}
         if mm: return [op(mm.group(1)) for _ in range(int(mm.group(2)))]
         mm = re.match(r'(?:std::ops::|core::ops::)?Range(?:Inclusive)?::<.*?> \{ start: (.*), end: (.*?)(?:, exhausted: .*)? \}$', rhs)
-        if mm: return ('Range', op(mm.group(1)), op(mm.group(2)))
+        if mm: return {0: op(mm.group(1)), 1: op(mm.group(2)), '__ty': 'Range'}
         mm = re.match(r'(?:copy|move) (.*) as (.*) \(([A-Za-z]+(?:\(.*\))?)\)$', rhs)
         if mm:
             src, ty, kind = mm.groups()
